@@ -465,6 +465,51 @@ def register(ex):
     ex.probe("trainSymInvBatchOuter", "Bool", "true", "symnco/losses.py:invariance_loss  `rearrange(proj_embed, '(b a) ... -> b a ...')` (instance-outer, as coded)",
              boolean(inv_pattern))
 
+    # ---------------- n_step_ppo.py ----------------
+    NS = "rl4co/models/rl/ppo/n_step_ppo.py"
+
+    def append_arg(target):
+        """normalised argument of the single `memory.<target>.append(…)` call in n_step_PPO.shared_step"""
+        fn = fn_of(NS, "n_step_PPO.shared_step")
+        if fn is None:
+            return None
+        hits = [n(nd.args[0]) for nd in ast.walk(fn)
+                if isinstance(nd, ast.Call) and n(nd.func) == f"memory.{target}.append" and len(nd.args) == 1]
+        return hits[0] if len(hits) == 1 else None
+
+    ex.probe("trainNstepMemoryClone", "Bool", "true", "n_step_ppo.py  the rollout memory stores a COPY of the state: `memory.tds.append(td.clone())` (false = the live TensorDict, which the env steps in place)",
+             boolean(lambda: {"td.clone()": True, "td.clone().detach()": True, "td": False}.get(append_arg("tds"))))
+    ex.probe("trainNstepActionClone", "Bool", "true", "n_step_ppo.py  `memory.actions.append(out['actions'].clone())`",
+             boolean(lambda: {"out['actions'].clone()": True, "out['actions']": False}.get(append_arg("actions"))))
+    ex.probe("trainNstepLogpClone", "Bool", "true", "n_step_ppo.py  `memory.logprobs.append(out['log_likelihood'].clone())`",
+             boolean(lambda: {"out['log_likelihood'].clone()": True, "out['log_likelihood']": False}.get(append_arg("logprobs"))))
+    ex.probe("trainNstepRewardClone", "Bool", "true", "n_step_ppo.py  `memory.rewards.append(td['reward'].clone().view(-1, 1))` (after the env step)",
+             boolean(lambda: {"td['reward'].clone().view(-1,1)": True, "td['reward'].view(-1,1)": False}.get(append_arg("rewards"))))
+
+    def reeval_clone():
+        fn = fn_of(NS, "n_step_PPO.shared_step")
+        if fn is None:
+            return None
+        hits = []
+        for nd in ast.walk(fn):
+            if isinstance(nd, ast.Call) and n(nd.func) == "self.policy" and any(k.arg == "actions" for k in nd.keywords) and nd.args:
+                hits.append(n(nd.args[0]))
+        if len(hits) != 1:
+            return None
+        return {"memory.tds[i].clone()": True, "memory.tds[i]": False}.get(hits[0])
+
+    ex.probe("trainNstepReevalClone", "Bool", "true", "n_step_ppo.py  stored states are re-evaluated on a copy: `self.policy(memory.tds[i].clone(), actions=memory.actions[i], …)`",
+             boolean(reeval_clone))
+    ex.probe("trainNstepReturnTag", "Nat", "0", "n_step_ppo.py  return recursion `R = R * gamma + reward_reversed[r]` (0) | gamma on the reward (1) | gamma dropped (2)",
+             nat(classify(NS, "n_step_PPO.shared_step", "R",
+                          {"R*self.ppo_cfg['gamma']+reward_reversed[r]": 0, "reward_reversed[r]+R*self.ppo_cfg['gamma']": 0,
+                           "R+self.ppo_cfg['gamma']*reward_reversed[r]": 1, "R+reward_reversed[r]": 2}, which=1)))
+    ex.probe("trainNstepAdvTag", "Nat", "0", "n_step_ppo.py  `adv = Reward - bl.detach()` (0) | value not detached (1)",
+             nat(classify(NS, "n_step_PPO.shared_step", "adv", {"Reward-bl.detach()": 0, "Reward-bl": 1})))
+    ex.probe("trainNstepRatioTag", "Nat", "0", "n_step_ppo.py  `ratio = torch.exp(ll - old_ll.detach())` (0)",
+             nat(classify(NS, "n_step_PPO.shared_step", "ratio", {"torch.exp(ll-old_ll.detach())": 0, "torch.exp(ll-old_ll)": 0,
+                                                                     "torch.exp(old_ll.detach()-ll)": 1})))
+
     # ---------------- a2c.py ----------------
     def a2c_default():
         fn = fn_of(A2C, "A2C.__init__")
